@@ -61,7 +61,7 @@ def prop(spec, rec):
         model_cur[c["name"]] = [abs(sum(c["coeffs"].get(ids[i], 0.0) * R[i, t] * cmath.exp(1j * math.radians(PH[i])) for i in range(n))) for t in range(T)]
     if names:
         for flag in (False, True):
-            for req in (None, spec["requested"]):
+            for req in (None, spec["requested"], []):
                 with warnings.catch_warnings():
                     warnings.simplefilter("ignore")
                     got = acnsim.constraint_currents(sim, return_magnitudes=flag, constraint_ids=None if req is None else list(req))
